@@ -32,6 +32,21 @@ BITFIELDS = [('bitfield-unsigned-3', 'uint', 3), ('bitfield-int-3', 'int', 3), (
 FP_OPERANDS = [('float', 'float', None), ('double', 'double', None)]
 
 
+def promoted(decl, width=None):
+    """C11 6.3.1.1p2: the type an operand of this shape has after the integer promotions (bit-fields: by the values the width allows)"""
+    if width is None or decl in FPR:
+        return promote(decl)
+    lo, hi = value_range(decl, width)
+    if SIZE[decl] <= 4 and -(2 ** 31) <= lo and hi <= 2 ** 31 - 1:
+        return 'int'
+    return promote(decl)
+
+
+# bit-fields of the types C11 itself gives a promotion rule for (_Bool, int, unsigned int)
+C11_BITFIELDS = [('bitfield-unsigned-3', 'uint', 3), ('bitfield-unsigned-31', 'uint', 31), ('bitfield-unsigned-32', 'uint', 32), ('bitfield-int-3', 'int', 3),
+                 ('bitfield-int-32', 'int', 32), ('bitfield-bool-1', 'bool', 1)]
+
+
 def value_range(tname, width=None):
     if tname == 'bool':
         return 0, 1
@@ -339,8 +354,9 @@ def judge(B, it, ctx, tree, leaf, decl, width, expect):
         if isinstance(got, tuple):
             raise NotEvaluable('the result is a reference')
         if got != want or after != want_after:
-            return False, 'for an operand holding %r the expression yields %r and leaves %r in the object; C11 prescribes the value %r and the object holding %r' % (x, got, after, want, want_after)
-    return True, ''
+            return False, 'for an operand holding %r the expression yields %r and leaves %r in the object; C11 prescribes the value %r and the object holding %r' % (x, got, after, want, want_after), \
+                ('stored-value' if after != want_after else 'value')
+    return True, '', None
 
 
 def c_type_of(B, it, tree):
@@ -355,7 +371,7 @@ def r_unary_operators(P, rep, rule, which='int'):
     """R01.14: + - ~ ! through unary() and add_type, every integer operand type"""
     B = Builder(P)
     where = 'parse.c:%d' % B.pu.fn('unary').line
-    shapes = INT_OPERANDS if which == 'int' else FP_OPERANDS
+    shapes = (INT_OPERANDS + C11_BITFIELDS) if which == 'int' else FP_OPERANDS
     for name, decl, width in shapes:
         try:
             trees = B.trees('unary', decl, width, ('cast', 'unary'))
@@ -374,7 +390,7 @@ def r_unary_operators(P, rep, rule, which='int'):
                     rep.undecided(rule, key, 'unary() has %d paths for the operator `%s`' % (len(cands), op), where=where)
                 continue
             it, ctx, tree, leaf = cands[0]
-            pt = promote(decl)
+            pt = promoted(decl, width)
             want_t = 'int' if op == '!' else pt
 
             def expect(x, op=op, pt=pt):
@@ -386,7 +402,7 @@ def r_unary_operators(P, rep, rule, which='int'):
                     return conv(pt, ~conv(pt, x)), x
                 return int(x == 0), x
             try:
-                ok, text = judge(B, it, ctx, tree, leaf, decl, width, expect)
+                ok, text, tag = judge(B, it, ctx, tree, leaf, decl, width, expect)
                 got_t = c_type_of(B, it, tree)
             except NotEvaluable as e:
                 rep.undecided(rule, key, 'the tree built for `%s x` is not evaluable: %s' % (op, e), where=where)
@@ -394,13 +410,16 @@ def r_unary_operators(P, rep, rule, which='int'):
             except AnalysisBroken as e:
                 rep.undecided(rule, key, 'add_type not interpretable on the tree built for `%s x`: %s' % (op, e), where=where)
                 continue
-            if ok and got_t != want_t:
+            # violation keys name what is wrong (one key per kind of defect, not per operand type)
+            klass = 'bit-field' if width is not None else ('integer' if which == 'int' else 'floating')
+            if got_t != want_t:
+                value_text = '' if ok else '; ' + text
                 ok = False
-                text = 'the expression has type %s%s; C11 6.5.3.3: the integer promotions are performed on the operand and the result has the promoted type %s (sizeof, _Generic and the usual arithmetic conversions of the enclosing expression see the wrong type)' % (
-                    got_t, ' (the operand itself is returned: no node is built for the operator)' if tree is leaf else '', want_t)
-                key += ':type'
+                text = 'the expression has type %s%s; C11 6.5.3.3: the integer promotions are performed on the operand and the result has the promoted type %s (sizeof, _Generic and the usual arithmetic conversions of the enclosing expression see the wrong type)%s' % (
+                    got_t, ' (the operand itself is returned: no node is built for the operator)' if tree is leaf else '', want_t, value_text)
+                key = 'parse.c:unary:%s/%s:%s' % (oname, klass, 'operand-type-kept' if got_t == decl else 'type-%s-for-%s' % (got_t, name))
             elif not ok:
-                key += ':value'
+                key += ':' + tag
             rep.ob(rule, key, ok, '`%s x` with x of type %s: %s' % (op, name, text), where=where)
 
 
@@ -441,7 +460,7 @@ def r_incdec(P, rep, rule, which='int'):
                     continue
                 it, ctx, tree, leaf = cands[0]
                 try:
-                    ok, text = judge(B, it, ctx, tree, leaf, decl, width, expect_incdec(decl, width, k, postfix))
+                    ok, text, tag = judge(B, it, ctx, tree, leaf, decl, width, expect_incdec(decl, width, k, postfix))
                     got_t = c_type_of(B, it, tree)
                 except NotEvaluable as e:
                     rep.undecided(rule, key, 'the tree built for `%s` is not evaluable: %s' % (('x' + op) if postfix else (op + 'x'), e), where=where)
@@ -450,12 +469,95 @@ def r_incdec(P, rep, rule, which='int'):
                     rep.undecided(rule, key, 'add_type not interpretable on the tree: %s' % e, where=where)
                     continue
                 want_t = 'int' if decl == 'enum' else decl
+                klass = 'bit-field' if width is not None else (decl if decl in ('bool', 'ptr') or decl in FPR else 'integer')
+                lost = False
                 if ok and width is None and got_t != want_t:
                     ok = False
                     text = 'the expression has type %s, C11 6.5.2.4p2/6.5.3.1p2: the type of the operand (%s)' % (got_t, want_t)
                     key += ':type'
                 elif not ok:
-                    key += ':value'
+                    lost = postfix and tag == 'value'
+                    key = 'parse.c:%s:%s/%s:%s' % (fname, form, klass, 'old-value-lost' if lost else tag) if (lost or klass != 'integer') else key + ':' + tag
                 src = ('x' + op) if postfix else (op + 'x')
                 rep.ob(rule, key, ok, '`%s` with x of type %s: %s%s' % (src, name, text,
-                       ' (the old value is recomputed from the new one, which is not possible when the conversion to the operand\'s type is not invertible)' if (postfix and not ok and key.endswith(':value')) else ''), where=where)
+                       ' (the old value is recomputed from the new one, which is not possible when the conversion to the operand\'s type cannot be undone)' if lost else ''), where=where)
+
+
+# ------------------------------------------------------------------ bit-field operands of the binary operators ---
+def r_bitfield_operands(P, rep, rule):
+    """R01.16: add_type on an operator whose operand is a bit-field member: the operand takes part with its promoted type"""
+    from .lib_types import common
+    B = Builder(P)
+    T, E = B.T, B.E
+    where = 'type.c:%d' % T.tu.fn('add_type').line
+    NK = {v: k for k, v in E.items() if k.startswith('ND_')}
+    BIN = ['ND_ADD', 'ND_SUB', 'ND_MUL', 'ND_DIV', 'ND_MOD', 'ND_BITAND', 'ND_BITOR', 'ND_BITXOR']
+    CMP = ['ND_EQ', 'ND_NE', 'ND_LT', 'ND_LE']
+    for k in BIN + CMP + ['ND_SHL', 'ND_SHR', 'ND_COND']:
+        if k not in E:
+            raise AnalysisBroken('enumerator %s vanished' % k)
+
+    def outer_type(it, n, leaf):
+        """n must be the leaf under conversions only: -> type class the operand takes part with"""
+        n = it.settle(n) if isinstance(n, View) else n
+        t = None
+        d = 0
+        while isinstance(n, Obj) and n is not leaf and n.fields.get('kind') == E['ND_CAST'] and d < 6:
+            t = t or T.classify(it, n.fields.get('ty'))
+            n = n.fields.get('lhs')
+            n = it.settle(n) if isinstance(n, View) else n
+            d += 1
+        if n is not leaf:
+            raise NotEvaluable('the operand is no longer the bit-field under conversions')
+        return t or T.classify(it, leaf.fields.get('ty'))
+
+    CLASSES = [('arithmetic', [(k, 'int', 'lhs') for k in BIN] + [('ND_SUB', 'int', 'rhs'), ('ND_ADD', 'long', 'lhs'), ('ND_MUL', 'ulong', 'lhs')]),
+               ('comparison', [(k, 'int', 'lhs') for k in ('ND_LT', 'ND_LE')] + [('ND_LT', 'int', 'rhs'), ('ND_LT', 'uint', 'lhs')]),
+               ('shift', [('ND_SHL', 'int', 'lhs'), ('ND_SHR', 'int', 'lhs')]), ('conditional', [('ND_COND', 'int', 'then')])]
+    for name, decl, width in C11_BITFIELDS:
+        pt = promoted(decl, width)
+        for cname, cases in CLASSES:
+            key = 'type.c:add_type:bit-field-operand/%s/%s' % (name, cname)
+            bad = []
+            undec = None
+            for kind, other, side in cases:
+                it = T.interp(opaque=['error_tok'], rec_limit=16, max_depth=120)
+                box = {}
+
+                def mk(ctx, kind=kind, other=other, side=side):
+                    it.ctx = ctx
+                    leaf = B.operand(it, decl, width)
+                    o = Obj('Node', lazy=False, label='B', fields={'kind': E['ND_VAR'], 'ty': T.make(it, other), 'tok': leaf.fields['tok']})
+                    n = Obj('Node', lazy=False, label='node', fields={'kind': E[kind], 'tok': leaf.fields['tok']})
+                    if kind == 'ND_COND':
+                        n.fields['cond'] = Obj('Node', lazy=False, label='C', fields={'kind': E['ND_VAR'], 'ty': T.make(it, 'int'), 'tok': leaf.fields['tok']})
+                        n.fields['then'] = leaf; n.fields['els'] = o
+                    else:
+                        n.fields[side] = leaf
+                        n.fields['rhs' if side == 'lhs' else 'lhs'] = o
+                    box.update(n=n, leaf=leaf, o=o)
+                    return [n]
+                try:
+                    outs = [(c, o) for c, o in it.explore('add_type', mk) if o[0] == 'ret']
+                except AnalysisBroken as e:
+                    undec = 'add_type not interpretable on %s: %s' % (kind, e); break
+                if len(outs) != 1:
+                    undec = 'add_type has %d returning paths on %s' % (len(outs), kind); break
+                n, leaf = box['n'], box['leaf']
+                try:
+                    got_op = outer_type(it, n.fields.get(side), leaf)
+                except NotEvaluable as e:
+                    undec = '%s: %s' % (kind, e); break
+                nt = T.classify(it, n.fields.get('ty'))
+                if kind in ('ND_SHL', 'ND_SHR'):
+                    want_op = pt; want_nt = pt
+                else:
+                    want_op = common(pt, other); want_nt = 'int' if kind in CMP else want_op
+                if not (got_op == want_op and nt == want_nt):
+                    bad.append('%s with %s %s: operand taken as %s, result %s (C11: %s, %s)' % (kind, other, 'on the right' if side in ('lhs', 'then') else 'on the left', got_op, nt, want_op, want_nt))
+            if undec:
+                rep.undecided(rule, key, undec, where=where); continue
+            if bad:
+                key = 'type.c:add_type:bit-field-operand/%s:not-promoted-to-int' % cname
+            rep.ob(rule, key, not bad, 'a bit-field `%s : %d` as operand: %s. C11 6.3.1.1p2 promotes a bit-field whose values all fit an int to int (the width, not the declared type, decides) - '
+                   'e.g. `s.u - 2 < 0` is true for `unsigned u : 3` holding 1' % ({'uint': 'unsigned', 'bool': '_Bool'}.get(decl, decl), width, '; '.join(bad)), where=where)
